@@ -35,6 +35,13 @@ type fileState struct {
 type GateFS struct {
 	inner storage.FileSystem
 	st    *gateState
+	ns    any // when set: the live-table namespace files of this view report (stands for another process)
+}
+
+// AsOtherProcess returns a view whose files report their own live-table namespace: table objects created through
+// it do not count as references for table objects created through other views, as if they lived in another process.
+func (g *GateFS) AsOtherProcess() *GateFS {
+	return &GateFS{inner: g.inner, st: g.st, ns: new(int)}
 }
 
 type gateState struct {
@@ -56,18 +63,18 @@ func NewGateFS(inner storage.FileSystem) *GateFS {
 // WithInner returns a view over another inner file system (e.g. another working directory) that
 // shares the log and state.
 func (g *GateFS) WithInner(inner storage.FileSystem) *GateFS {
-	return &GateFS{inner: inner, st: g.st}
+	return &GateFS{inner: inner, st: g.st, ns: g.ns}
 }
 
 func (g *GateFS) New(path string) storage.File {
 	f := g.inner.New(path)
 	g.st.add(FSEvent{Op: "new", URI: f.URI()})
-	return &gateFile{File: f, st: g.st, writing: true}
+	return &gateFile{File: f, st: g.st, writing: true, ns: g.ns}
 }
 
 func (g *GateFS) Open(path string) storage.File {
 	f := g.inner.Open(path)
-	return &gateFile{File: f, st: g.st}
+	return &gateFile{File: f, st: g.st, ns: g.ns}
 }
 
 func (g *GateFS) Copy(src, dst string) error {
@@ -96,6 +103,7 @@ type gateFile struct {
 	st      *gateState
 	buf     []byte
 	writing bool
+	ns      any
 }
 
 func (f *gateFile) Write(p []byte) (int, error) {
@@ -152,6 +160,9 @@ func (f *gateFile) Delete() error {
 
 // Namespace passes on the inner file's namespace (in-memory filesystems have equal URIs).
 func (f *gateFile) Namespace() any {
+	if f.ns != nil {
+		return f.ns
+	}
 	if n, ok := f.File.(interface{ Namespace() any }); ok {
 		return n.Namespace()
 	}
